@@ -156,6 +156,9 @@ Definition gstep (G:gst) (o:op) : gst * bool :=
   | AutoUpdate => (fold_left g_auto_one (gall_dv_keys G) G, false)
   | GetCE k => if negb (ghas_sub G (fst k) && ghas_ce G k) then (G,true) else (G, negb (gvalid G k))
   | Query => (G,false)
+  | UpdSub w ss =>
+      if negb (ghas_sub G ss && sub_ok w) then (G,true) else
+      (g_clear_roots (match w with WQ => [RQ] | WU => [RU] | WZ => [RZ] | _ => [] end) (g_inval (ws_stage w) G), false)
   end.
 
 (** copy construction / assignment in the specification *)
@@ -207,7 +210,7 @@ Definition copy_ok (cf:cfg) (s:st) : bool :=
     below Instance (no allocation stack changes) *)
 Definition runtime (s:st) (o:op) : bool :=
   match o with
-  | AdvSub _ _ | AdvSys _ | Upd _ | SetCE _ _ | Mark _ | Unmark _ | MarkDVUpd _ | SetDVUpd _ _ | AutoUpdate | GetCE _ | Query => true
+  | AdvSub _ _ | AdvSys _ | Upd _ | UpdSub _ _ | SetCE _ _ | Mark _ | Unmark _ | MarkDVUpd _ | SetDVUpd _ _ | AutoUpdate | GetCE _ | Query => true
   | InvalidateAll g => 4 <=? g
   | InvalidateCache g => (g <? 3) || (4 <=? g)
   | SetDV k _ => 4 <=? d_inval (get_dv k s)
